@@ -56,7 +56,7 @@ func Inject(r *rand.Rand, c *cfg.Config, kind string, n int) {
 		name := fmt.Sprintf("nopeP%d", n)
 		switch r.Intn(4) {
 		case 0:
-			c.Params = append(c.Params, cfg.KV{K: fmt.Sprintf("injp%d", n), V: cfg.Str(choose2(r, "%"+name+"%", "a%"+name+"%b", "%%%"+name+"%"))})
+			c.Params = append(c.Params, cfg.KV{K: fmt.Sprintf("injp%d", n), V: cfg.Str(choose2(r, "%"+name+"%", "a%"+name+"%b", "%%%"+name+"%", "a%%b%%c%"+name+"%d%%e"))})
 		case 1:
 			if len(c.Decorators) > 0 {
 				d := &c.Decorators[r.Intn(len(c.Decorators))]
@@ -65,7 +65,7 @@ func Inject(r *rand.Rand, c *cfg.Config, kind string, n int) {
 			}
 			fallthrough
 		default:
-			addRef(r, pickService(r, c), choose2(r, "%"+name+"%", "x%"+name+"%", "%%%"+name+"%%%"))
+			addRef(r, pickService(r, c), choose2(r, "%"+name+"%", "x%"+name+"%", "%%%"+name+"%%%", "%%x%%y%%%"+name+"%z"))
 		}
 	case "missing-service":
 		name := fmt.Sprintf("nopeS%d", n)
